@@ -22,6 +22,32 @@ impl<T: Clone + MDefault> Clone for Vec<T> {
         v
     }
 }
+impl<T: PartialEq> Vec<T> {
+    pub fn contains(&self, x: impl core::borrow::Borrow<T>) -> bool {
+        let x = x.borrow();
+        let mut r = false;
+        let mut i = 0;
+        while i < VCAP {
+            if i < self.n && self.a[i] == *x {
+                r = true;
+            }
+            i += 1;
+        }
+        r
+    }
+    pub fn first_index_of(&self, x: impl core::borrow::Borrow<T>) -> Option<u32> {
+        let x = x.borrow();
+        let mut r = None;
+        let mut i = VCAP;
+        while i > 0 {
+            i -= 1;
+            if i < self.n && self.a[i] == *x {
+                r = Some(i as u32);
+            }
+        }
+        r
+    }
+}
 impl<T: PartialEq> PartialEq for Vec<T> {
     fn eq(&self, o: &Self) -> bool {
         let mut same = self.n == o.n;
@@ -101,6 +127,111 @@ impl<T: Clone + MDefault> Vec<T> {
     }
     pub fn first(&self) -> Option<T> {
         self.get(0)
+    }
+    pub fn last(&self) -> Option<T> {
+        if self.n == 0 {
+            None
+        } else {
+            self.get((self.n - 1) as u32)
+        }
+    }
+    pub fn first_unchecked(&self) -> T {
+        self.at(0).clone()
+    }
+    pub fn last_unchecked(&self) -> T {
+        if self.n == 0 {
+            crate::mtrap!("TRAP:vec index");
+        }
+        self.at(self.n - 1).clone()
+    }
+    pub fn try_get(&self, i: u32) -> Result<Option<T>, crate::ConversionError> {
+        Ok(self.get(i))
+    }
+    pub fn set(&mut self, i: u32, x: T) {
+        if (i as usize) >= self.n || (i as usize) >= VCAP {
+            crate::mtrap!("TRAP:vec index");
+        }
+        self.a[i as usize] = x;
+    }
+    pub fn pop_back(&mut self) -> Option<T> {
+        if self.n == 0 {
+            None
+        } else {
+            let x = self.a[self.n - 1].clone();
+            self.n -= 1;
+            Some(x)
+        }
+    }
+    pub fn pop_front(&mut self) -> Option<T> {
+        if self.n == 0 {
+            return None;
+        }
+        let x = self.a[0].clone();
+        let mut i = 0;
+        while i + 1 < VCAP {
+            if i + 1 < self.n {
+                self.a[i] = self.a[i + 1].clone();
+            }
+            i += 1;
+        }
+        self.n -= 1;
+        Some(x)
+    }
+    pub fn remove(&mut self, idx: u32) -> Option<()> {
+        let idx = idx as usize;
+        if idx >= self.n {
+            return None;
+        }
+        let mut i = 0;
+        while i + 1 < VCAP {
+            if i >= idx && i + 1 < self.n {
+                self.a[i] = self.a[i + 1].clone();
+            }
+            i += 1;
+        }
+        self.n -= 1;
+        Some(())
+    }
+    pub fn push_front(&mut self, x: T) {
+        if self.n >= VCAP {
+            crate::mfail!("MODEL:vec capacity");
+        }
+        let mut i = VCAP - 1;
+        while i > 0 {
+            if i <= self.n {
+                self.a[i] = self.a[i - 1].clone();
+            }
+            i -= 1;
+        }
+        self.a[0] = x;
+        self.n += 1;
+    }
+    pub fn insert(&mut self, idx: u32, x: T) {
+        let idx = idx as usize;
+        if idx > self.n {
+            crate::mtrap!("TRAP:vec index");
+        }
+        if self.n >= VCAP {
+            crate::mfail!("MODEL:vec capacity");
+        }
+        let mut i = VCAP - 1;
+        while i > 0 {
+            if i > idx && i <= self.n {
+                self.a[i] = self.a[i - 1].clone();
+            }
+            i -= 1;
+        }
+        self.a[idx] = x;
+        self.n += 1;
+    }
+    pub fn append(&mut self, o: &Vec<T>) {
+        let mut i = 0;
+        while i < VCAP {
+            if i < o.n {
+                self.push_back(o.a[i].clone());
+            }
+            i += 1;
+        }
     }
     pub fn iter(&self) -> VecIter<T> {
         VecIter { v: self.clone(), i: 0 }
